@@ -425,7 +425,7 @@ def run(ctx):
             run_net(rng, seq, kind == "scenario")
         else:
             run_cycle(rng, seq)
-    n = ctx.pick(200, 12000)
+    n = ctx.pick(200, 80000)
     for i, rng in ctx.cases("random", n):
         kind = ["dynamic", "network", "scenario", "cycle", "static", "lanelet"][i % 6]
         ctx.feature("kind." + kind)
